@@ -5,6 +5,7 @@ which columns a layer added or removed, how a stored row is re-arranged into the
 is determined by the names), and `tryResolve` over it. Core Lean only.
 -/
 import WrglModel.Model.Merge
+import WrglModel.Model.Sync
 namespace Wrgl
 
 /-- the merged columns: the base's, then every new name in order of first appearance -/
@@ -59,5 +60,34 @@ theorem resolveRecCols_same_example :
     resolveRecCols [[1], [2]] [[[1], [2]], [[1], [2]]] (some [[7], [8]]) [some [[7], [9]], some [[7], [8]]]
       = resolveRec 2 (fun _ _ => false) (fun _ _ => false) { key := [[7]], base := some [[7], [8]], others := [some [[7], [9]], some [[7], [8]]] } := by
   decide
+
+/-! ### the per-cell decision chain as a regenerated guard table (extract/paths.go, C05) -/
+
+/-- the situation of one (column, row) step of `tryResolve`'s inner loop -/
+structure CellEnv where
+  isAdded : Bool
+  isRemoved : Bool
+  add : Option Bytes
+  mod : Option Bytes
+  rem : Bool
+  baseCell : Option Bytes
+  x : Bytes
+
+def cellAtom (e : CellEnv) : String → Option Bool
+  | "_, ok := r.cd.Added[layer][i]; ok" => some e.isAdded
+  | "_, ok := r.cd.Removed[layer][i]; ok" => some e.isRemoved
+  | "add == nil" => some e.add.isNone
+  | "add != nil" => some e.add.isSome
+  | "*add != row[i]" => some (e.add != some e.x)
+  | "mod == nil" => some e.mod.isNone
+  | "*mod != row[i]" => some (e.mod != some e.x)
+  | "baseRow == nil || baseRow[i] != row[i]" => some (e.baseCell != some e.x)
+  | "rem" => some e.rem
+  | _ => none
+
+/-- the model's step on the same situation, from a not-yet-unresolved state -/
+def CellEnv.stepUnresolves (e : CellEnv) : Bool :=
+  (cellStep e.baseCell e.isAdded e.isRemoved e.x
+    { add := e.add, mod := e.mod, rem := e.rem, val := [], unresolved := false }).unresolved
 
 end Wrgl
